@@ -270,6 +270,14 @@ def cls_c17(e):
     return out
 
 
+def cls_c18(e):
+    if e["a"] == "Obs":
+        return ["block_%s" % ("provider" if e["args"]["chain"] == "p" else "consumer")]
+    if e["a"] == "ObsLen":
+        return ["history_len_%d" % (e["args"]["r1"] // 50)]
+    return []
+
+
 def cls_c19(e):
     out = []
     if e["a"] in ("PLaunchFail", "PRemoveFail", "PAllocateFail", "BlockError", "EnvHalt"):
@@ -386,6 +394,11 @@ PROPS = {
             "rule": "channel handshake steps by (chain, step, deviation, outcome), launches by kind of client binding, validator-set packets received",
             "required_classes": {"quick": ["p_ChanOpenTry_unordered_rej", "p_ChanOpenTry_version_rej", "p_ChanOpenTry_port_rej", "p_ChanOpenTry_good_ok", "p_ChanOpenTry_good_rej", "p_ChanOpenConfirm_good_ok", "p_ChanOpenConfirm_good_rej", "p_ChanOpenInit_good_rej", "launch_on_connection_failed"]},
             "assumptions": ["IBC core (connection/channel/proof verification) is executed, not modelled; completeness of Try acceptance is asserted only for attempts whose IBC-level inputs the scenario made valid"]},
+    "C18": {"level": "exploration", "mc": [], "corpora": [{"name": "replicas", "n": {"quick": 14, "thorough": 150}, "steps": {"quick": 70, "thorough": 120}}],
+            "invariants": ["C18_Agree", "C18_SameLength"], "properties": [], "classify": cls_c18,
+            "rule": "each history (seeded random or scripted, the generators of the other properties) is executed on 3 independent application instances in one process; one evaluation = one block whose (app hash, FinalizeBlock response digest) is compared across replicas; classes = provider / consumer blocks and history lengths",
+            "required_classes": {"quick": ["block_provider", "block_consumer"]},
+            "assumptions": ["replicas run in one process (Go randomises map iteration per range statement); no cross-process or cross-architecture comparison"]},
     "C19": {"level": "fault_enumeration", "mc": [], "corpora": [RANDOM, SCRIPTED], "invariants": ["C19_NoBlockError"],
             "properties": ["C19_LaunchRollback", "C19_RemoveRollback", "C19_AllocateRollback"], "classify": cls_c19,
             "rule": "blocks of every chain, failing consumer operations and failing transactions, by kind",
@@ -426,6 +439,8 @@ for _p, _t, _n in [
     ("C20", "immediate vs queued parameter updates, one pending change, application when due, parameters used by punishments", "Fractions are compared as 18-decimal strings."),
 ]:
     MANIFEST_TEXT[_p] = {"text": _GEN + ": " + _t + ".", "note": _n}
+MANIFEST_TEXT["C18"] = {"text": "N-version execution: the specification supplies the histories (random driver and scripted scenarios with ties, many consumers and validators) and a trivial agreement invariant that TLC evaluates on the merged observation trace of 3 replicas; this is exploration, not model checking.",
+                        "note": "Same-process replicas; transaction bytes are regenerated deterministically per replica rather than copied.", "technique": "replica execution of generated histories + TLC agreement invariant on the observation trace"}
 MANIFEST_TEXT["C17"] = {"text": "TLC evaluates binding invariants (consumer/client/channel one-to-one, channel built on the consumer's client) on every recorded provider state and the acceptance rule of every handshake step; a scripted scenario drives every deviation (ordering, ports, version, foreign client, provider-initiated, racing handshakes, repeated attempts, second consumer on the same connection) with real IBC proofs, forged channel ends standing for a compromised consumer.",
                         "note": "IBC core is executed, not modelled. Launch on a connection whose client is already bound was a defect (F2), fixed by c3beaf4."}
 MANIFEST_TEXT["C19"]["technique"] = "TLC trace validation of every generated history (block errors, rollback frame conditions); fault enumeration via build-tagged failpoints"
